@@ -180,7 +180,7 @@ def stepOpBasic (w : World) (self : Nat) (op : Op) : World × List Ev × Status 
       let w3 := setHeartBeat w2 new (NV.Gen.C11.efunSat n)
       (w3, [.clone self new k n (queryHeartBeat w3 new)], .ok)
   | .err => (w, [.err self], .err)
-  | .flag => ({ w with flag := true }, [.flag self], .ok)
+  | .flag => ({ w with flag := decide (NV.Gen.C11.timerSetsFlag (if w.flag then 1 else 0) ≠ 0) }, [.flag self], .ok)   -- heartbeat_timer_callback
   | .hbs => (w, [.hbs self (w.hbs.map (·.ob)).reverse], .ok)
   | .take i =>
     if w.alive i && !(i < 2) && i != self && !isItem w self && !isItem w i && (itemsOf w i).isEmpty then
